@@ -78,8 +78,11 @@ func (t TermLocations) MergeOverlapping() {
 			lastTl = tl
 		} else if lastTl != nil && tl != nil {
 			if lastTl.Overlaps(tl) {
-				// ok merge this with previous
-				lastTl.End = tl.End
+				// ok merge this with previous, a location nested
+				// inside the previous one must not shorten it
+				if tl.End > lastTl.End {
+					lastTl.End = tl.End
+				}
 				t[i] = nil
 			}
 		}
